@@ -375,6 +375,7 @@ func c09Conc(f []string) []string {
 				} else {
 					last = resp.NumDNSQueries
 				}
+				time.Sleep(20 * time.Microsecond)
 			}
 			maxSeen[rI] = last
 		}(rI)
@@ -396,10 +397,19 @@ func c09Conc(f []string) []string {
 
 // ---- generator ----
 
-var c09LimitHours = []int64{1, 1, 2, 2, 3, 5, 23, 24, 24, 24, 25, 47, 48, 72, 167, 168, 168, 169, 191, 192, 193, 215, 216, 240, 720, 720, 721, 2160, 8760}
+var c09LimitHours = []int64{1, 1, 2, 2, 3, 5, 23, 24, 24, 24, 25, 47, 48, 72, 167, 168, 168, 169, 191, 192, 193, 215, 216, 240}
 
 func c09GenLimit(r *rand.Rand) int64 {
 	h := vutil.Pick(r, c09LimitHours)
+	// long retentions are expensive to read (limit-1 bucket lookups): keep them rare
+	switch k := r.IntN(200); {
+	case k == 0:
+		h = 8760
+	case k < 4:
+		h = 2160
+	case k < 14:
+		h = vutil.Pick(r, []int64{720, 720, 721, 719, 384})
+	}
 	ms := h * 3600000
 	switch r.IntN(5) {
 	case 0:
@@ -557,10 +567,10 @@ func TestVerifC09(t *testing.T) {
 func c09GenConc(r *rand.Rand, emit vutil.Emit) {
 	n := vutil.N(20)
 	for i := 0; i < n; i++ {
-		limH := vutil.Pick(r, []int64{24, 24, 48, 168, 720})
+		limH := vutil.Pick(r, []int64{24, 24, 48, 168, 13})
 		ticks := r.IntN(int(min(limH-1, 12)))
 		writers := 2 + r.IntN(7)
-		per := 50 + r.IntN(400)
+		per := 20 + r.IntN(100)
 		emit("C09.conc", vutil.Itoa(400000+r.IntN(100000)), strconv.FormatInt(limH*3600000, 10),
 			vutil.Itoa(writers), vutil.Itoa(per), vutil.Itoa(ticks))
 	}
